@@ -195,7 +195,10 @@ class TDS(BaseRoutine):
             return system.dae.xy
 
         self.reset()
-        self._load_pert()
+        if not self._load_pert():
+            # a perturbation file that is asked for and cannot be loaded: the simulation would not be the requested one
+            self.err_msg = 'Perturbation file could not be loaded.'
+            self.busted = True
 
         # restore power flow solutions; the values left by a previous dynamic initialization
         # are cleared because initial values declared with `v_str_add` are added in place
@@ -946,10 +949,10 @@ class TDS(BaseRoutine):
 
         system = self.system
         if not system.files.pert:
-            return False
+            return True  # nothing to load
 
         if not os.path.isfile(system.files.pert):
-            logger.warning('Pert file not found at "%s".', system.files.pert)
+            logger.error('Pert file not found at "%s".', system.files.pert)
             return False
 
         pert_path, full_name = os.path.split(system.files.pert)
